@@ -172,7 +172,13 @@ class Interp:
             # a second Settings object with its own (non-default) values: the context must restore *its* previous values
             init = trace.get("init", {})
             self.model.update(init)
-            self.S = fl.Settings(**{k: realize(k, v) for k, v in self.model.items()})
+            try:
+                self.S = fl.Settings(**{k: realize(k, v) for k, v in self.model.items()})
+            except Exception as e:  # a (hypothetical) validating constructor refuses the values: nothing to test here
+                out.stats.hit("outcomes.settings_constructor_rejected_" + type(e).__name__)
+                self.S = fl.Settings()
+                self.model = dict(DEFAULT)
+                self.S._factory_manager = pool("F0")
             out.stats.hit("probes.own_settings_instance")
         else:
             self.S = fl.settings
